@@ -115,6 +115,9 @@ const hashCap = 250_000
 
 var progress atomic.Int64
 
+// Progress tells the watchdog that the worker is alive (called once per case).
+func Progress() { progress.Add(1) }
+
 // Watchdog aborts the process (exit 2: infrastructure, never a verdict) when
 // no run completes for limit wall-clock seconds.
 func Watchdog(limit time.Duration) {
